@@ -126,7 +126,11 @@ def behaviours(chk, steps, simulate=0):
                   invariants=[] if simulate else ["NoHookPlain", "PrefixIsNotBeneath"],
                   properties=[] if simulate else ["Sticky"], constraints=["Emit"])
     args = ["-simulate", f"num={simulate}", "-depth", str(steps + 1), "-seed", str(chk.seed + 5)] if simulate else []
+    if not simulate:
+        args = ["-coverage", "1"]
     res = tlc.run("JtHookScope", cfg, wd, workers=1 if simulate else 8, args=args, heap="8g", timeout=1800)
+    if not simulate:
+        chk.action_coverage(f"JtHookScope[{steps}]", res, ["Install", "Uninstall", "Import"])
     behs = [json.loads(v[1]) for v in res.printed() if isinstance(v, list) and len(v) == 2 and v[0] == "BEH"]
     if not behs:
         raise MachineryFailure("no JtHookScope behaviours:\n" + res.tail())
